@@ -278,6 +278,29 @@ def search(ctx, scales_mod, np):
             chk("octave_rejects", False, dict(low_hz=lowv))
         except ValueError:
             pass
+    # "for all linear/octave parameters": several scalings with different parameters alive at once - each keeps its own
+    # (a scale value obtained from one object converts back through that object, whatever was constructed or rejected since)
+    for cls, plist in (("OctaveScaling", [(20.0,), (55.0,), (0.5,), (440.0,)]), ("LinearScaling", [(0.0, 1.0), (10.0, 0.5), (-5.0, 3.25), (123.5, 2.0)])):
+        K = getattr(scales_mod, cls)
+        objs, held = [], []
+        for prm in plist:
+            o = K(*prm)
+            f = 1000.0 + 10.0 * len(objs)
+            objs.append(o)
+            held.append((o, prm, f, float(o.hertz_to_scale(f))))
+            if cls == "OctaveScaling":
+                try:
+                    K(-1.0)
+                except ValueError:
+                    pass
+            for o2, prm2, f2, s2 in held:
+                ctx.count("search:objects-alive-together")
+                back = float(o2.scale_to_hertz(s2))
+                again = float(o2.hertz_to_scale(f2))
+                chk("parameters_of_one_object_changed_by_another", abs(back - f2) <= 1e-9 * f2 and abs(again - s2) <= 1e-9 * max(1.0, abs(s2))
+                    and float(o2.low_hz) == float(prm2[0]),
+                    dict(scale=cls, parameters=list(prm2), constructed_since=[list(p) for p in plist[: len(objs)]], hertz=f2, scale_value_then=s2,
+                         scale_value_now=again, back_now=back, low_hz_now=float(o2.low_hz)))
     return bad
 
 
